@@ -261,12 +261,12 @@ def replay_cases(recs):
 
 def run(chk):
     quick = chk.tier == "quick"
-    chk.rule = ("(twin pair, arrangement) cases enumerated by TLC: 69 twin pairs x arrangements of 6 row classes over N in {1,2,5} "
+    chk.rule = ("(twin pair, arrangement) cases enumerated by TLC: 69 twin pairs x arrangements of 8 row classes over N in {1,2,5} (thorough: {1,2,5,7}) "
                 "(special rows -- half-turn, near-half-turn, near-identity, identity -- first / middle / last); distinct = distinct "
                 "(pair, arrangement); all arrangements with a non-identity row are non-trivial")
     chk.assume("row i of the array path equals the scalar path on row i within 1e-12 (up to sign only for eigen-solver outputs), NaN "
                "pattern included; OLEQ draws from NumPy's global RNG: both paths are seeded identically per call")
-    res = tlc.run_tlc("MC_Vectorised", core.spec_cfg("MC_Vectorised"), timeout=900)
+    res = tlc.run_tlc("MC_Vectorised", core.spec_cfg("MC_Vectorised" if quick else "MC_Vectorised_thorough"), timeout=3600)
     chk.add_tlc("Vectorised[twin pairs x arrangements]", res)
     if res.violated:
         chk.fail("C07|spec|%s" % res.violated, {"tlc": res.output[-2000:]})
